@@ -32,6 +32,8 @@ def directed_histories():
         H("defines in another order", [R({"define": ["A=1", "B=2"]}), R({"define": ["B=2", "A=1"]})]),
         H("define values swapped", [R({"define": ["X=1", "CFLAGS=0"]}), R({"define": ["X=0", "CFLAGS=1"]})]),
         H("equal define values changed together", [R({"define": ["X=1", "CFLAGS=1"]}), R({"define": ["X=0", "CFLAGS=0"]})]),
+        H("define assigned, then appended", [R({"define": ["CFLAGS=-g"]}), R({"define": ["CFLAGS+=-g"]})]),
+        H("define appended twice, then as one value", [R({"define": ["CFLAGS+=-a", "CFLAGS+=-b"]}), R({"define": ["CFLAGS+=-a -b"]})]),
         H("unknown builder after a run for all", [R({}), R({"builders": ["nosuch"]})]),
         H("unknown app after a run for all", [R({}), R({"apps": ["nosuch"]})]),
         H("narrower builders after a run for all", [R({}), R({"builders": ["b2", "b0"]})]),
